@@ -3,6 +3,7 @@ package props
 import (
 	"encoding/json"
 	"fmt"
+	"go/token"
 	"os"
 	"path/filepath"
 	"sort"
@@ -188,6 +189,93 @@ func calleeName(c *Ctx, call *ssa.CallCommon) string {
 		}
 	}
 	return k
+}
+
+// effectFree: fn (with its closures) writes nothing but its own locals, sends nothing, starts nothing, and calls
+// only functions of which the same holds. Unknown callees (interface methods, function values, library code outside
+// the trivial set) count as effects.
+var effectFreeMemo = map[*ssa.Function]int{} // 1 = in progress / assumed, 2 = yes, 3 = no
+
+func (c *Ctx) effectFree(fn *ssa.Function) bool {
+	switch effectFreeMemo[fn] {
+	case 1, 2:
+		return true
+	case 3:
+		return false
+	}
+	if fn.Blocks == nil {
+		ok := fn.Pkg != nil && trivialCalleePkgs[fn.Pkg.Pkg.Path()]
+		if ok {
+			effectFreeMemo[fn] = 2
+		} else {
+			effectFreeMemo[fn] = 3
+		}
+		return ok
+	}
+	effectFreeMemo[fn] = 1
+	ok := true
+	localAddr := func(v ssa.Value) bool {
+		for {
+			switch x := v.(type) {
+			case *ssa.FieldAddr:
+				v = x.X
+				continue
+			case *ssa.IndexAddr:
+				v = x.X
+				continue
+			case *ssa.Alloc:
+				return true
+			}
+			return false
+		}
+	}
+	var walk func(f *ssa.Function)
+	walk = func(f *ssa.Function) {
+		for _, b := range f.Blocks {
+			for _, in := range b.Instrs {
+				switch x := in.(type) {
+				case *ssa.Store:
+					if !localAddr(x.Addr) {
+						ok = false
+					}
+				case *ssa.MapUpdate, *ssa.Send, *ssa.Go, *ssa.Defer, *ssa.Panic, *ssa.Select:
+					ok = false
+				case *ssa.UnOp:
+					if x.Op == token.ARROW {
+						ok = false
+					}
+				case *ssa.Call:
+					if _, isB := x.Call.Value.(*ssa.Builtin); isB {
+						continue
+					}
+					cal := x.Call.StaticCallee()
+					if cal == nil || (cal.Parent() == nil && !c.effectFree(cal)) {
+						ok = false
+					}
+				}
+			}
+		}
+		for _, an := range f.AnonFuncs {
+			walk(an)
+		}
+	}
+	walk(fn)
+	if ok {
+		effectFreeMemo[fn] = 2
+	} else {
+		effectFreeMemo[fn] = 3
+	}
+	return ok
+}
+
+// effectFreeEvent: the event is a call of an effect-free function (stores are effects by definition).
+func (c *Ctx) effectFreeEvent(in ssa.Instruction) bool {
+	call, ok := in.(*ssa.Call)
+	if !ok {
+		return false
+	}
+	cal := call.Call.StaticCallee()
+	return cal != nil && c.effectFree(cal)
 }
 
 // stripTypeArgs removes every balanced [...] group: "(*bart.Table[V]).Supernets" -> "(*bart.Table).Supernets".
@@ -436,7 +524,7 @@ func (c *Ctx) ruleCallRatchet(rule string, pkgs []string, fileFilter func(file s
 // ruleOrderRatchet: two steps of a function have not changed places.
 func (c *Ctx) ruleOrderRatchet(rule string, pkgs []string, fileFilter func(file string) bool, baselineFile string, min int) {
 	r := c.R
-	r.Rule(rule, "swapped-order ratchet: the committed baseline records, per function, the immediate-successor pairs (A, B) of the strict control-flow order between the calls and field stores of its body (A can be followed by B, B never by A; occurrences of the same callee are numbered in source order). If the function still performs exactly the same events and now B is strictly before A (same block earlier, or B's block dominates A's), two steps have changed places — a check after the use, a bookkeeping update before the test it depends on, a strip before the policy that may set the attribute", min)
+	r.Rule(rule, "swapped-order ratchet: the committed baseline records, per function, the immediate-successor pairs (A, B) of the strict control-flow order between the calls and field stores of its body (A can be followed by B, B never by A; occurrences of the same callee are numbered in source order). If the function still performs exactly the same events and now B is strictly before A (same block earlier, or B's block dominates A's), two steps have changed places (two calls of functions that write, send and start nothing commute and are not reported) — a check after the use, a bookkeeping update before the test it depends on, a strip before the policy that may set the attribute", min)
 	var base []callSig
 	b, err := os.ReadFile(filepath.Join(homeDir(), baselineFile))
 	if err != nil || json.Unmarshal(b, &base) != nil {
@@ -490,6 +578,9 @@ func (c *Ctx) ruleOrderRatchet(rule string, pkgs []string, fileFilter func(file 
 				continue
 			}
 			if executesBefore(bb, a) {
+				if c.effectFreeEvent(a) && c.effectFreeEvent(bb) {
+					continue // two reads that change nothing commute
+				}
 				swapped = pr[i+4:] + " now runs before " + pr[:i] + " (" + c.P.InstrPos(bb) + ")"
 				break
 			}
